@@ -145,6 +145,10 @@ def check_case(ctx, case):
             ctx.hist("outcomes", f"{st}->{o.cls}")
             if o.kind in ("num", "DomainError", "CoordinateMissing"):
                 continue
+            if st == "indet" and o.kind == "exc" and o.exc_type == "OverflowError":
+                # a guard argument that may or may not be zero: the magnitudes above it are unknown, so is the scope
+                ctx.count("overflow_at_indeterminate_point_unfiltered")
+                continue
             if label.startswith("diff_early") and o.kind == "exc" and o.exc_type == "OverflowError":
                 # the early differential evaluates the partials of *all* variables; their scope is not filtered per variable
                 ctx.count("early_differential_overflow_unfiltered")
